@@ -2192,6 +2192,7 @@ def _snapshot(st):
     s = Snap()
     s.env = dict(st.env)
     s.H = st.heap.copy() if st.heap is not None else None
+    s.yielded = st.yielded
     for k, v in st.env.items():
         if not k.startswith("$"):
             setattr(s, k, v)
